@@ -38,7 +38,7 @@ var rareSeeds = []rareSeed{
 	{"(function(){}) ()", "b"}, {"(() => {})()", "b"}, {"x = () => ({})", "b"}, {"x = () => ({}).a", "b"}, {"x = () => {}\n(1)", "none"}, {"x = (() => {}).length", "b"}, {"x = a => b => c => d", "b"}, {"x = async (a = await => 1) => a", "s"},
 	{"var {a, b: {c}, ...d} = e, [f, , g] = h", "b"}, {"try {} catch ({a, b: [c]}) {}", "b"}, {"try {} catch ([a = 1]) {}", "b"}, {"try {} catch {}", "b"}, {"function f({a} = {}, [b] = [], ...c) {}", "b"},
 	// labelled / sloppy functions, HTML comments, octal
-	{"l: function f(){}", "s"}, {"if (a) function f(){}", "s"}, {"if (a) function f(){} else function g(){}", "s"}, {"l1: l2: l3: for(;;) break l1", "b"}, {"l: { break l }", "b"}, {"l: if (a) break l", "b"},
+	{"l: function f(){}", "s"}, {"a: b: function f(){}", "s"}, {"a: b: c: function f(){} f()", "s"}, {"a: { b: function f(){} }", "s"}, {"function g(){ a: b: function f(){} }", "s"}, {"a: b: for(;;) break a", "b"}, {"a: b: { break a }", "b"}, {"a: b: if (x) break b; else break a", "b"}, {"if (a) function f(){}", "s"}, {"if (a) function f(){} else function g(){}", "s"}, {"l1: l2: l3: for(;;) break l1", "b"}, {"l: { break l }", "b"}, {"l: if (a) break l", "b"},
 	{"x = 1 <!-- c\n", "s"}, {"<!-- c\nx", "s"}, {"x\n--> c\n", "s"}, {"/*\n*/ --> c\nx", "s"}, {"x = a-->b", "b"}, {"x = a<!--b", "m"}, {"x = 010 + 08 + 09.5", "s"}, {"x = '\\07\\8\\9'", "s"}, {"with (a) b", "s"}, {"delete x", "s"},
 	{"function f(a, a){}", "s"}, {"x = {__proto__: 1, '__proto__': 2}", "none"}, {"x = {__proto__: 1, __proto__(){} , ['__proto__']: 2}", "b"}, {"({__proto__: a, __proto__: b} = c)", "b"},
 	// numeric literals
